@@ -178,6 +178,9 @@ pub fn exec(song: &mut Song, tokens: &Vec<Token>) -> bool {
             TokenType::Channel => {
                 let no = exec_value_int_by_token(song, t);
                 let v = value_range(1, no, 16) - 1; // CH(1 to 16)
+                if trk!(song).channel != v as isize {
+                    trk!(song).bend_range = 0; // the bend range is a setting of the channel: a slur on the new channel sends it again
+                }
                 trk!(song).channel = v as isize;
             },
             TokenType::Voice => exec_voice(song, t),
